@@ -44,6 +44,8 @@ thread_local! {
     static DELAY_RNG: RefCell<Rng> = RefCell::new(Rng::new(0));
     static DELAY_PROB: Cell<u32> = const { Cell::new(0) };
     static SITES: RefCell<Option<Vec<(Op, u32)>>> = const { RefCell::new(None) };
+    /// E2: map events of this free-running thread, stamped with the global E2 clock
+    static E2_LOG: RefCell<Option<Vec<Ev>>> = const { RefCell::new(None) };
     /// while > 0, panics on this thread are expected to be caught by a monitor: not printed
     static QUIET: Cell<u32> = const { Cell::new(0) };
 }
@@ -157,6 +159,25 @@ fn hook_fn(site: &Site) {
             crate::sched::on_hook(&shared, me, site);
         }
         What::Delay => {
+            // optional event log (C13 attribution on free-running executions): only map events,
+            // stamped before and after the operation with the monitor's global clock
+            if matches!(site.op, Op::MapRemove | Op::MapInsert | Op::MapGet) {
+                E2_LOG.with(|l| {
+                    if let Some(v) = l.borrow_mut().as_mut() {
+                        let seq = crate::conc::E2_CLOCK.fetch_add(1, std::sync::atomic::Ordering::SeqCst);
+                        v.push(Ev {
+                            seq,
+                            op: site.op,
+                            obj: site.obj,
+                            key: site.key,
+                            after: site.after,
+                            hit: site.hit,
+                            line: site.loc.line(),
+                            file: site.loc.file(),
+                        });
+                    }
+                });
+            }
             if site.after {
                 return;
             }
@@ -231,4 +252,12 @@ pub fn crumb(entry: &str, input: &str) {
             }
         });
     }
+}
+
+pub fn e2_log_begin() {
+    E2_LOG.with(|l| *l.borrow_mut() = Some(Vec::new()));
+}
+
+pub fn e2_log_take() -> Vec<Ev> {
+    E2_LOG.with(|l| l.borrow_mut().take().unwrap_or_default())
 }
